@@ -105,6 +105,8 @@ def run_replayer(exe, args, trace, timeout=900, env=None, script=None):
             continue
         crashes += 1
         if crashes > 4:
+            # the rest of the script is not replayed: whoever does not own crashes must not count this replay as judged
+            allerr.append("REPLAY-ABANDONED after %d crashes" % crashes)
             break
         worst = rc
         allerr.append(err[-3000:])
@@ -248,6 +250,10 @@ def replay_and_validate(chk, variant, script, tagname, fmt_desc="", recheck=True
                                             trace_module=variant.trace_module,
                                             trace_constants={k: (v.s if isinstance(v, vf.Raw) else v) for k, v in variant.trace_constants.items()},
                                             subst=variant.subst, tag=variant.tag, events=seg[-400:], why=sorted(why)))
+    if "REPLAY-ABANDONED" in err and variant.owned is not None and not (variant.owned & {"crash", "timeout"}):
+        # vacuity guard (seeded change C02-k): the library crashed five times and the replay was given up; crashes belong to other
+        # properties, but a run that explored next to nothing is not a pass either - it is reported as "could not judge" (exit 2)
+        chk.infra.append("replay %s/%s abandoned after repeated crashes this check does not own: most of the script was not judged" % (tagname, variant.tag))
     if nrej == 0 and rc != 0 and not any(r[2]["rejects"] for r in results):
         chk.infra.append("replayer %s exited %s but the trace was accepted: %s" % (variant.tag, rc, err[-800:]))
     chk.cov["traces_validated_against_impl"] += count_resets(trace)
